@@ -1,7 +1,7 @@
 import GoSquare.Proofs.DeconstructSquare
 import GoSquare.Proofs.DeconstructParts
 import GoSquare.Properties.C03
-import GoSquare.Properties.C07
+import GoSquare.Proofs.C07Core
 /-! # C02 — constructing then deconstructing a square returns the original transactions
 
 For every ordered list of non-empty ordinary transactions followed by canonically encoded blob
